@@ -299,6 +299,7 @@ def run_impl(comp, script_path, out_path, race=False, timeout=600, env=None):
     exe = exe_path('kvharness-race' if race else 'kvharness')
     with open(script_path, 'rb') as i, open(out_path, 'wb') as o:
         e = dict(os.environ)
+        e['VERIF_REPO'] = os.path.realpath(REPO)
         e.setdefault('GOMEMLIMIT', '3GiB')
         if env:
             e.update(env)
